@@ -380,10 +380,11 @@ impl Version {
             let root = self.options.path.clone();
             let setsum = Setsum::from_digest(sst.setsum);
             let lazy = move || lazy_cursor(&fm, &sc, &root, setsum);
-            cursors.push(Box::new(PruningCursor::new(
-                LazyCursor::new(lazy),
-                timestamp,
-            )?));
+            // NOTE: no per-file pruning here.  A pruning cursor drops tombstones, and a tombstone
+            // dropped before the merge can no longer shadow older versions in other files; the
+            // caller prunes the merged stream at `timestamp`.
+            let _ = timestamp;
+            cursors.push(Box::new(LazyCursor::new(lazy)));
         }
         fn bound_to_bound<U: AsRef<[u8]>>(u: &Bound<U>) -> Bound<&[u8]> {
             match u {
@@ -421,7 +422,7 @@ impl Version {
                     let root = self.options.path.clone();
                     let setsum = Setsum::from_digest(sst.setsum);
                     let lazy = move || lazy_cursor(&fm, &sc, &root, setsum);
-                    this_level_cursors.push(PruningCursor::new(LazyCursor::new(lazy), timestamp)?);
+                    this_level_cursors.push(LazyCursor::new(lazy));
                 }
             }
             if !this_level_cursors.is_empty() {
